@@ -132,7 +132,7 @@ class HSM2ProtocolLedger(HSM2Protocol):
             self.initialize_device()
             self._comm_issue = False
             self.logger.info("Reconnection successful")
-        except HSM2ProtocolError as e:
+        except (HSM2ProtocolError, HSM2DongleErrorResult) as e:
             # Capture any initialization issues
             # (which would include communication problems,
             # such as failure to connect) and bubble them
